@@ -14,6 +14,7 @@ import (
 	"verifh/core"
 	"verifh/envfs"
 	"verifh/ref/rpar1"
+	"verifh/ref/rpar2"
 	"verifh/scen"
 )
 
@@ -35,6 +36,9 @@ import (
 // judgement - except after a successful PAR1 Repair: that decoder records what
 // it wrote, and its counts / a further Repair are judged as they stand (the
 // PAR2 decoder keeps its pre-repair tables; that is left unspecified).
+// A further Repair on an object whose directory was changed only by its own
+// earlier Repair calls (complete or interrupted by a torn write) is judged by
+// the state-independent clause: nil error => every file original.
 // Other calls are executed - they shape the hidden state - but not judged.
 // Sequences are not merged by model state: hidden state is the point.
 
@@ -65,12 +69,16 @@ const (
 	// only in the fault alphabet (in-memory runs): a Repair whose 1st / 2nd file write is torn half-way
 	dpRepairTorn1 = dpNOps
 	dpRepairTorn2 = dpNOps + 1
+	// a load that fails half-way: the k-th read of this call returns an I/O error
+	dpLoadFilesFault1  = dpNOps + 2
+	dpLoadParityFault2 = dpNOps + 3
+	dpLoadParityFault3 = dpNOps + 4
 )
 
 // dpFaultAlphabet: the operations of the error-path search.
-var dpFaultAlphabet = []int{dpLoadBoth, dpCounts, dpRepair, dpRepairTorn1, dpRepairTorn2, dpDelA, dpDelB, dpChangeA}
+var dpFaultAlphabet = []int{dpLoadBoth, dpCounts, dpRepair, dpRepairTorn1, dpRepairTorn2, dpLoadFilesFault1, dpLoadParityFault2, dpLoadParityFault3, dpDelA, dpDelB, dpChangeA}
 
-var dpNames = []string{"LoadFileData", "LoadParityData", "Counts", "Repair", "Repair(check)", "delete a", "change a", "delete b", "restore data files", "delete first recovery file", "restore first recovery file", "LoadFileData+LoadParityData", "Repair(1st file write torn)", "Repair(2nd file write torn)"}
+var dpNames = []string{"LoadFileData", "LoadParityData", "Counts", "Repair", "Repair(check)", "delete a", "change a", "delete b", "restore data files", "delete first recovery file", "restore first recovery file", "LoadFileData+LoadParityData", "Repair(1st file write torn)", "Repair(2nd file write torn)", "LoadFileData(1st read fails)", "LoadParityData(2nd read fails)", "LoadParityData(3rd read fails)"}
 
 func decProtoGen(fmtName string, depth int, disk bool, emit func(*decProtoCase)) {
 	if !disk {
@@ -148,6 +156,9 @@ func decProtoOne(c *decProtoCase, seq []int, r *core.Rec, wrap func(*decProtoCas
 			viol("setup-failed", "%v", err)
 			return
 		}
+		if c.Ref {
+			s = decProtoForeignLayout(s)
+		}
 		p2, paths, datas, vols, fs0, index = s, s.Paths, s.Data, s.RecFiles, s.FS0, s.Index
 	} else if c.Ref {
 		s := decProtoRefSet(r.Seed)
@@ -203,6 +214,10 @@ func decProtoOne(c *decProtoCase, seq []int, r *core.Rec, wrap func(*decProtoCas
 	}
 	fileView, parityView := "-", "-"
 	key := ""
+	// ownOnly: since the object was last fresh, the directory was changed only by the object's own Repair calls
+	// (complete or interrupted), not by any event. Then the weaker, state-independent clause applies to a further
+	// Repair on it: a nil error still means every file is original.
+	ownOnly := false
 	var ops []int
 	for _, op := range seq {
 		if op == dpLoadBoth {
@@ -214,6 +229,10 @@ func decProtoOne(c *decProtoCase, seq []int, r *core.Rec, wrap func(*decProtoCas
 	for _, op := range ops {
 		r.AddTransitions(1)
 		fresh := fileView == view(paths) && parityView == view(vols)
+		switch op {
+		case dpDelA, dpChangeA, dpDelB, dpRestoreAll, dpDelVol0, dpRestoreVol0:
+			ownOnly = false
+		}
 		switch op {
 		case dpDelA:
 			del(paths[0])
@@ -301,6 +320,63 @@ func decProtoOne(c *decProtoCase, seq []int, r *core.Rec, wrap func(*decProtoCas
 				}
 				key += fmt.Sprintf("C%d/%d", fc.UsableDataFileCount, fc.UsableParityFileCount)
 			}
+		case dpLoadFilesFault1, dpLoadParityFault2, dpLoadParityFault3:
+			// a (re)load that fails half-way: it must report the failure, and the object must go on describing what it
+			// described before (both decoders install their new tables only at the end of a successful load)
+			if root != "" {
+				continue
+			}
+			k, failAt := 0, 1
+			if op == dpLoadParityFault2 {
+				failAt = 2
+			} else if op == dpLoadParityFault3 {
+				failAt = 3
+			}
+			cur.Hook = func(index int, kind, path string, data []byte) *envfs.Fault {
+				if kind == "read" {
+					k++
+					if k == failAt {
+						return &envfs.Fault{Err: envfs.ErrInjected, Partial: -1, Kind: "read-error"}
+					}
+				}
+				return nil
+			}
+			var lerr error
+			pi := core.Catch(func() {
+				switch {
+				case op == dpLoadFilesFault1 && d2 != nil:
+					lerr = d2.LoadFileData()
+				case op == dpLoadFilesFault1:
+					lerr = d1.LoadFileData()
+				case d2 != nil:
+					lerr = d2.LoadParityData()
+				default:
+					lerr = d1.LoadParityData()
+				}
+			})
+			cur.Hook = nil
+			if pi != nil {
+				viol("load-panic:"+pi.Frame, "%s panicked: %s", dpNames[op], pi.Value)
+				return
+			}
+			if k >= failAt && lerr == nil {
+				viol("read-fault-not-reported", "%s: read %d of this call failed, but it returned nil", dpNames[op], failAt)
+				return
+			}
+			if k < failAt {
+				// fewer reads than that: nothing was injected, this was an ordinary load
+				if lerr != nil {
+					viol("load-failed:"+errClass(lerr), "%s failed without any fault: %v", dpNames[op], lerr)
+					return
+				}
+				if op == dpLoadFilesFault1 {
+					fileView = view(paths)
+				} else {
+					parityView = view(vols)
+				}
+			}
+			r.Count("decproto_failed_loads", 1)
+			key += "Lf"
 		case dpRepairTorn1, dpRepairTorn2:
 			// a Repair interrupted by a torn write: it must not report success for the file whose write failed; the
 			// object is then stale by definition (reload needed). What it leaves behind is the next calls' problem.
@@ -327,6 +403,9 @@ func decProtoOne(c *decProtoCase, seq []int, r *core.Rec, wrap func(*decProtoCas
 			})
 			cur.Hook = nil
 			fileView, parityView = "-", "-"
+			if fresh {
+				ownOnly = true
+			}
 			if pi != nil {
 				if fresh {
 					viol("repair-panic:"+pi.Frame, "%s", pi.Value)
@@ -376,6 +455,10 @@ func decProtoOne(c *decProtoCase, seq []int, r *core.Rec, wrap func(*decProtoCas
 			}
 			judged := fresh
 			fileView, parityView = "-", "-"
+			wasOwnOnly := ownOnly
+			if fresh {
+				ownOnly = true
+			}
 			if judged && pi == nil && rerr == nil && d1 != nil {
 				// the PAR1 decoder records what it wrote (its file table is updated by Repair), so after a successful
 				// Repair its counts / a further Repair are judged without a reload. The PAR2 decoder keeps its
@@ -392,6 +475,17 @@ func decProtoOne(c *decProtoCase, seq []int, r *core.Rec, wrap func(*decProtoCas
 			}
 			key += fmt.Sprintf("R%v", rerr == nil)
 			if !judged {
+				if wasOwnOnly && rerr == nil {
+					// a retry on the same object after its own (possibly interrupted) Repair: success must still be true
+					r.Count("decproto_judged_retries", 1)
+					for i, p := range paths {
+						if b, ok := cur.Get(p); !ok || !bytes.Equal(b, datas[i]) {
+							viol("retry-nil-but-files-differ", "a further Repair on the same object (after its own earlier Repair, no other change to the directory) returned nil, but %s is not original", p)
+							break
+						}
+					}
+					continue
+				}
 				r.Count("decproto_unjudged_calls", 1)
 				continue
 			}
@@ -460,4 +554,35 @@ func decProtoRefSet(seed int64) *scen.P1Set {
 	s.FS0 = fs
 	decProtoRefCache[seed] = s
 	return s
+}
+
+var decProtoForeignCache = map[*scen.P2Set]*scen.P2Set{}
+
+// decProtoForeignLayout replaces the recovery files gopar wrote by a conformant foreign layout: arbitrary names whose
+// order is not the order of the block numbers, non-contiguous exponents (1500 | 0,1,2 | 7).
+func decProtoForeignLayout(s *scen.P2Set) *scen.P2Set {
+	if f, ok := decProtoForeignCache[s]; ok {
+		return f
+	}
+	f := *s
+	f.FS0 = s.FS0.Clone()
+	for _, p := range s.RecFiles {
+		f.FS0.Del(p)
+	}
+	f.RecFiles = nil
+	f.RecExps = map[string][]uint32{}
+	for _, l := range []struct {
+		name string
+		exps []uint32
+	}{{"/d/s.a part [x].par2", []uint32{1500}}, {"/d/s.b.par2", []uint32{0, 1, 2}}, {"/d/s.c.par2", []uint32{7}}} {
+		pk := s.Ref.CorePackets("refwriter")
+		for _, e := range l.exps {
+			pk = append(pk, s.Ref.RecvPacket(e, s.Ref.RecoveryBlock(int(e))))
+		}
+		f.FS0.Put(l.name, rpar2.Join(pk...))
+		f.RecFiles = append(f.RecFiles, l.name)
+		f.RecExps[l.name] = l.exps
+	}
+	decProtoForeignCache[s] = &f
+	return &f
 }
